@@ -37,6 +37,17 @@ Theorem C18_hint_rules :
 Proof. exact hint_rules. Qed.
 Print Assumptions C18_hint_rules.
 
+(* The hint verifier expects the issuer of the CURRENT request: a hint really signed by the
+   provider for another issuer (another host of the same dynamic-issuer provider) is rejected;
+   and (model, C18_spec) every answer of a request sequence depends on its own request only. *)
+Theorem C18_foreign_issuer_rejected :
+  forall (pmatch : string -> string -> pres) (uparse : string -> option purl)
+         (default_uri : string) (cs : list lclient) (x : ereq) (iss : string) (ex : bool) (sub azp : string),
+    r_tok x = TSigned iss ex sub azp -> iss <> r_issuer x ->
+    exists s c, end_session pmatch uparse default_uri cs (r_router x) (to_esreq x) = EPage s c None.
+Proof. exact foreign_issuer_rejected. Qed.
+Print Assumptions C18_foreign_issuer_rejected.
+
 (* Whenever TerminateSession is called (redirect, or error page after a failing
    TerminateSession) its arguments are the hint's subject and the proven client. *)
 Theorem C18_terminates_right_session :
